@@ -263,10 +263,11 @@ Definition forest0 : forest :=
 Definition pend0 : pendings := map (fun m => (m_name m, module_augs SC m)) SC.
 Definition n_aug : nat := fold_right (fun m n => length (m_augments m) + n)%nat O SC.
 
-(* FixChoice on every module tree *)
+(* FixChoice on every module tree (the fuel is derived from the height of the highest tree; it does not depend
+   on the schema) *)
 Definition fix_all (F : forest) : forest :=
   map (fun kv => (fst kv,
-                  fix_choice (2 * S (S (fold_right Nat.max O (map (fun kv => depth (entry_fuel SC) (snd kv)) F)))) (snd kv))) F.
+                  fix_choice (2 * S (S (fold_right Nat.max O (map (fun kv => height (snd kv)) F)))) (snd kv))) F.
 
 (* one round: the retry loop over the modules still at work, visited in the order of [mods], to a
    fixpoint; then FixChoice.  Rounds repeat as long as they apply something: an augment path may lead
